@@ -347,12 +347,6 @@ def ev(e, env):
             return getattr(b, e.func.attr)(*_args(e.args, env))      # a method of a container stand-in of the rule
     if isinstance(e, ast.Call) and isinstance(e.func, ast.Name) and e.func.id in _CALLS and not e.keywords:
         return _CALLS[e.func.id](*_args(e.args, env))
-    if isinstance(e, ast.Call) and isinstance(e.func, ast.Attribute) and all(k.arg for k in e.keywords):
-        b = ev(e.func.value, env)
-        if getattr(type(b), '_kv_array', False):
-            if e.func.attr in type(b)._kv_methods:
-                return getattr(b, e.func.attr)(*_args(e.args, env), **{k.arg: ev(k.value, env) for k in e.keywords})    # a method of an array stand-in
-            raise ModelError(f'minieval: array method .{e.func.attr}()')
     if isinstance(e, ast.Call) and isinstance(e.func, ast.Attribute) and isinstance(e.func.value, ast.Name) and e.func.value.id == 're' \
             and e.func.attr in ('sub', 'split', 'match', 'fullmatch', 'search', 'findall', 'compile') and not e.keywords:
         import re as _re
@@ -378,6 +372,12 @@ def ev(e, env):
             return getattr(b, e.func.attr)(*_args(e.args, env), **{k.arg: ev(k.value, env) for k in e.keywords})
     if isinstance(e, ast.Call) and isinstance(e.func, ast.Name) and getattr(env.get(e.func.id), '_kv_stub', False) and all(k.arg for k in e.keywords):
         return env[e.func.id](*_args(e.args, env), **{k.arg: ev(k.value, env) for k in e.keywords})     # a stand-in constructor / function of the rule
+    if isinstance(e, ast.Call) and isinstance(e.func, ast.Attribute) and all(k.arg for k in e.keywords):
+        b = ev(e.func.value, env)
+        if getattr(type(b), '_kv_array', False):
+            if e.func.attr in type(b)._kv_methods:
+                return getattr(b, e.func.attr)(*_args(e.args, env), **{k.arg: ev(k.value, env) for k in e.keywords})    # a method of an array stand-in
+            raise ModelError(f'minieval: array method .{e.func.attr}()')
     if isinstance(e, ast.Call) and isinstance(e.func, ast.Subscript) and all(k.arg for k in e.keywords):
         f = ev(e.func, env)         # kernel[grid, block](...): the rule supplies the launcher
         if getattr(f, '_kv_stub', False):
